@@ -407,6 +407,8 @@ func contPrepare(c *contCase, id int, verdict func(c *contCase, r *contRun, st *
 			p2 := NewProc(10 + id)
 			r.inst.Proc = p2
 			r.inst.ActionSnap = nil
+			// (the host program lowers its SetByUser flags before it parses again: they are its own variables)
+			r.inst.LowerSetByUser()
 			RunProc(p2, func() error { return r.inst.Cli.Run(c.Argv2) })
 			r.p2 = p2
 			r.accepted2 = p2.End == EndReturned && p2.Err == nil && len(p2.Observed()) == 1
